@@ -60,9 +60,10 @@ type State struct {
 	stack   []*types.Func // functions being explored inline (innermost last)
 	// nil-ness of the last result of the inlined call that just returned (consumed by the
 	// assignment that stores it)
-	retNil   Tri
-	retCall  *ast.CallExpr
-	retFacts map[string]Tri
+	retNil      Tri
+	retCall     *ast.CallExpr
+	retFacts    map[string]Tri
+	retVarFacts map[string]Tri
 	// parameters of inlined callees bound to the caller's variable they were passed
 	bind map[types.Object]types.Object
 }
@@ -73,11 +74,23 @@ func (s *State) key() string {
 		ks = append(ks, fmt.Sprintf("%s=%d", k, v))
 	}
 	sort.Strings(ks)
-	return s.TS + "|" + strings.Join(ks, ",") + "|" + fmt.Sprint(len(s.defers)) + "|" + fmt.Sprint(len(s.stack)) + "|" + fmt.Sprint(s.retNil)
+	return s.TS + "|" + strings.Join(ks, ",") + "|" + fmt.Sprint(len(s.defers)) + "|" + fmt.Sprint(len(s.stack)) + "|" + fmt.Sprint(s.retNil) + retKey(s.retVarFacts)
+}
+
+func retKey(m map[string]Tri) string {
+	if len(m) == 0 {
+		return ""
+	}
+	ks := make([]string, 0, len(m))
+	for k, v := range m {
+		ks = append(ks, fmt.Sprintf("%s=%d", k, v))
+	}
+	sort.Strings(ks)
+	return "|" + strings.Join(ks, ",")
 }
 
 func (s *State) clone() *State {
-	n := &State{TS: s.TS, Env: make(map[string]Tri, len(s.Env)), defers: append([]ast.Node(nil), s.defers...), Ret: s.Ret, RetStmt: s.RetStmt, Panic: s.Panic, tr: s.tr, stack: s.stack, retNil: s.retNil, retCall: s.retCall, bind: s.bind}
+	n := &State{TS: s.TS, Env: make(map[string]Tri, len(s.Env)), defers: append([]ast.Node(nil), s.defers...), Ret: s.Ret, RetStmt: s.RetStmt, Panic: s.Panic, tr: s.tr, stack: s.stack, retNil: s.retNil, retCall: s.retCall, retVarFacts: s.retVarFacts, bind: s.bind}
 	for k, v := range s.Env {
 		n.Env[k] = v
 	}
@@ -688,6 +701,23 @@ func (ex *Explorer) run(body *ast.BlockStmt, s0 *State, inDefer bool) []*State {
 				ex.assign(x, st)
 				// err = helper() / v, err := helper(): the inlined callee's path knows whether it
 				// returned a nil error
+				if st.retCall != nil && len(st.retVarFacts) > 0 && len(x.Rhs) == 1 && len(x.Lhs) >= 1 {
+					rhs := x.Rhs[0]
+					for {
+						if p, ok := rhs.(*ast.ParenExpr); ok {
+							rhs = p.X
+							continue
+						}
+						break
+					}
+					if rhs == ast.Expr(st.retCall) {
+						if id, ok := x.Lhs[len(x.Lhs)-1].(*ast.Ident); ok && id.Name != "_" {
+							for suf, v := range st.retVarFacts {
+								ex.setFact(st.Env, id.Name+" "+suf, v == T)
+							}
+						}
+					}
+				}
 				if st.retCall != nil && st.retNil != Unk && len(x.Rhs) == 1 && len(x.Lhs) >= 1 {
 					rhs := x.Rhs[0]
 					for {
@@ -726,7 +756,7 @@ func (ex *Explorer) run(body *ast.BlockStmt, s0 *State, inDefer bool) []*State {
 			case ast.Expr:
 				lastExpr = x
 			}
-			st.retNil, st.retCall, st.retFacts = Unk, nil, nil
+			st.retNil, st.retCall, st.retFacts, st.retVarFacts = Unk, nil, nil, nil
 		}
 		if suspended {
 			continue
@@ -1098,6 +1128,36 @@ func (ex *Explorer) inline(fi *core.FuncInfo, call *ast.CallExpr, st *State, inD
 			pi++
 		}
 	}
+	// a parameter that receives the caller's variable of the same name denotes the same value:
+	// the caller's facts about it stay visible inside the callee
+	sameName := map[string]bool{}
+	{
+		chk := func(pname string, arg ast.Expr) {
+			if u, ok := arg.(*ast.UnaryExpr); ok && u.Op == token.AND {
+				arg = u.X
+			}
+			if from, ok := simple(arg); ok && from == pname {
+				sameName[pname] = true
+			}
+		}
+		if fi.Decl.Recv != nil && len(fi.Decl.Recv.List) == 1 && len(fi.Decl.Recv.List[0].Names) == 1 {
+			if se, ok := call.Fun.(*ast.SelectorExpr); ok {
+				chk(fi.Decl.Recv.List[0].Names[0].Name, se.X)
+			}
+		}
+		k := 0
+		for _, f := range fi.Decl.Type.Params.List {
+			for _, nm := range f.Names {
+				if k < len(call.Args) {
+					chk(nm.Name, call.Args[k])
+				}
+				k++
+			}
+		}
+		for nm := range sameName {
+			delete(declared, nm)
+		}
+	}
 	s2 := st.clone()
 	s2.stack = append(append([]*types.Func(nil), st.stack...), fi.Obj)
 	nb := map[types.Object]types.Object{}
@@ -1171,6 +1231,21 @@ func (ex *Explorer) inline(fi *core.FuncInfo, call *ast.CallExpr, st *State, inD
 			}
 		}
 		o.retFacts = retFacts
+		// facts "<x> <op> <const>" about a returned identifier travel to the variable the
+		// caller stores the result in
+		o.retVarFacts = nil
+		if rs := o.RetStmt; rs != nil && len(rs.Results) > 0 {
+			if id, ok := rs.Results[len(rs.Results)-1].(*ast.Ident); ok {
+				for k, v := range o.Env {
+					if strings.HasPrefix(k, id.Name+" ") && v != Unk {
+						if o.retVarFacts == nil {
+							o.retVarFacts = map[string]Tri{}
+						}
+						o.retVarFacts[strings.TrimPrefix(k, id.Name+" ")] = v
+					}
+				}
+			}
+		}
 		for i := len(rens) - 1; i >= 0; i-- {
 			// facts about the parameter path hold for the argument path — unless the callee
 			// assigned the parameter itself (its copy then differs from the caller's variable)
@@ -1188,6 +1263,21 @@ func (ex *Explorer) inline(fi *core.FuncInfo, call *ast.CallExpr, st *State, inD
 		for k := range o.Env {
 			if mentionsDeclared(k) {
 				delete(o.Env, k)
+			}
+		}
+		for nm := range sameName {
+			if assignedInCallee[nm] {
+				// the callee changed its own copy: the caller's variable is what it was
+				for k := range o.Env {
+					if mentions(k, nm) {
+						delete(o.Env, k)
+					}
+				}
+				for k, v := range st.Env {
+					if mentions(k, nm) {
+						o.Env[k] = v
+					}
+				}
 			}
 		}
 		for k, v := range saved {
